@@ -265,6 +265,43 @@ func (m *StoreMon) OnEvent(c *eng.Ctx, ms eng.MState, ev *eng.Event) eng.MState 
 		if m.isInternal(c, ev.Val) && ev.Addr != m.dataAddr() {
 			chk("C13.R5,C14.R4", "escape", false, "the store's internal map is stored into "+ev.Addr.Pretty())
 		}
+		// Keys may fill a slice made with len(map) by index: slot i of the i-th iteration
+		// (a counter that starts at 0 and steps by 1 with the range loop) receives the range key
+		if ev.Addr.K == eng.KIndexAddr {
+			base, idx := ev.Addr.A[0], ev.Addr.A[1]
+			if lp := loopOf(); lp != "" && lp == s.rngLoop && base.K == eng.KMake && base.T != nil {
+				s.iterOps++
+				k, off := eng.AffParts(idx)
+				okIdx := k != nil && k.K == eng.KSym && off == 0
+				if okIdx {
+					if st, known := c.E.IVStep[k.S]; known && st != 1 { // unknown until the first back edge
+						okIdx = false
+					}
+				}
+				if okIdx {
+					l, _ := eng.IVLoop(k.S)
+					okIdx = l == lp
+					// the counter starts at 0: its lower bound is the initial value
+					b := c.E.Bounds(c.St, k)
+					okIdx = okIdx && b.HasLo && b.Lo >= 0 && c.Eval(eng.Bin("<", k, eng.ConstInt(0))) == eng.TriFalse
+					if b.HasLo && b.HasHi && b.Lo == b.Hi && b.Lo != 0 {
+						okIdx = false // first iteration: the counter's initial value is not 0
+					}
+				}
+				okLen := len(base.A) >= 1 && base.A[0] != nil && base.A[0].K == eng.KLen && m.isInternal(c, base.A[0].A[0])
+				if s.iterBad == "" {
+					switch {
+					case ev.Val != s.rngK:
+						s.iterBad = "the value stored into the snapshot is not the store's key of this iteration"
+					case !okIdx:
+						s.iterBad = "the snapshot slot written (" + idx.Pretty() + ") is not a counter that starts at 0 and advances by one per key"
+					case !okLen:
+						s.iterBad = "the snapshot filled by index is not made with the length of the store's map"
+					}
+				}
+				s.appends = appendUniq(s.appends, base, 3)
+			}
+		}
 	case "lookup":
 		if m.isInternal(c, ev.Addr) {
 			needRead("map lookup")
